@@ -654,6 +654,10 @@ func main() {
 	mode := flag.String("mode", "sched", "sched: scheduling points in one package; maporder: controlled map iteration in a module")
 	simenvPath := flag.String("simenv", "", "maporder: import path of the simenv package")
 	flag.Parse()
+	if *mode == "maporder-gen" {
+		mapOrderUntyped(*dir, *simenvPath)
+		return
+	}
 	if *mode == "maporder" {
 		mapOrderMain(*dir, flag.Args(), *simenvPath)
 		return
